@@ -89,6 +89,8 @@ def run_net(prop, tier, seed, profiles, rule, assumptions, models=(), level='mod
     ev.assumptions = list(assumptions)
     try:
         for module, cfgq, cfgt, what, actions in models:
+            if (cfgq if tier == 'quick' else cfgt) is None:
+                continue
             r = vlib.model_check(module, cfgq if tier == 'quick' else cfgt, timeout=280 if tier == 'quick' else 3000,
                                  expect_actions=actions)
             ev.add_model(r, what)
